@@ -25,7 +25,12 @@ def run_catalogue(chk: Check, select, algs=None, extra_flags=None):
         flags.update(extra_flags or {})
         label = f"{cfg['alg']}/n={cfg['n']}/params={cfg['params']}"
         tl = 900.0 if chk.tier == "quick" else 3600.0
-        r = chk.explore("prop", dict(cfg=cfg, select=sel, known=[k for k in chk.known if k.get("harness", "prop") == "prop"]), label, time_limit=tl, flags=flags)
+        from nusym.runner import load_known
+
+        known = [k for k in load_known() if k.get("harness", "prop") == "prop" and (k["prop"] == chk.pid or k["prop"] == "C04")]
+        r = chk.explore("prop", dict(cfg=cfg, select=sel, known=known), label, time_limit=tl, flags=flags)
+        if r.acc.counts.get("budget-unlisted"):
+            chk.inconclusive.append(f"{label}: {r.acc.counts['budget-unlisted']} path(s) exceeded the loop budget outside every listed C04 finding (no result to judge; see check C04)")
         batch.extend(dict(w, harness="prop") for w in r.acc.validate)
         st = seen_status.setdefault(cfg["alg"], set())
         st.update(k for k in r.acc.counts if k.startswith("status:"))
